@@ -21,8 +21,9 @@ def sz(tier, q, t): return q if tier == 'quick' else t
 PROPS = {}
 
 PROPS['C15'] = dict(
-    coq_targets=['Proofs/WalkDep.vo', 'Proofs/MagicSweep.vo'],
-    scope='all 64 squares x all 2^64 occupancies, default (magic multiplication) configuration; translated tables re-swept by the kernel on every run',
+    coq_targets=['Proofs/WalkDep.vo', 'Proofs/MagicSweep.vo', 'Proofs/PextFacts.vo', 'Proofs/MagicBmiSweep.vo'],
+    prop_files=['C15', 'C15b'],
+    scope='all 64 squares x all 2^64 occupancies, both build configurations (magic multiplication tables and BMI2 pext/pdep tables, each translated from its own build); tables re-swept by the kernel whenever they change',
     streams=lambda tier: [
         dict(stages=[H('magic', sz(tier, 2, 24)), D('magic')], shards=16, min_stat={'magic_lookups': 107648}),
         dict(stages=[H('magic', sz(tier, 1, 8)), D('magic')], shards=16, build='bmi2', min_stat={'magic_lookups': 107648, 'bmi2_build': 1}, seed_off=5),
@@ -32,7 +33,6 @@ PROPS['C15'] = dict(
     eval_stat='magic_lookups',
     rule='Rust-side complete sweep of the relevant-occupancy subsets of every (piece type, square) x random noise on the irrelevant squares, default build and target-feature=+bmi2 build (magic vs BMI entry points), each compared with the extracted ray walk; distinct = distinct (piece, square, relevant subset)',
     exhaustive=True,
-    assumptions=['the BMI2 (pext/pdep) tables are covered by the exhaustive Rust-side sweep against the extracted ray walk and against the magic lookups, not yet by a Coq theorem over the translated BMI tables'],
 )
 
 PROPS['C19'] = dict(
@@ -111,7 +111,8 @@ def pos_stream(tier, q, t, mode='full'):
     return dict(stages=[H('pos', sz(tier, q, t), mode), D('pos')], shards=16, min_stat={'valid_positions': 500})
 
 PROPS['C01'] = dict(
-    coq_targets=[],
+    coq_targets=['Proofs/GenWF.vo', 'Proofs/GenWFBoard.vo', 'Proofs/StatusModel.vo'],
+    prop_files=['C01a'],
     scope='see theorem list; the full refinement statement is kept as C01_full',
     streams=lambda tier: [pos_stream(tier, 14, 900, 'full')],
     tags=['moves', 'oracle_moves', 'oracle_dup', 'legal_query.*', 'legal_quick.*', 'len0', 'len_vs_count', 'enumerate_moves', 'overflow', 'size_hint', 'obs_ch', 'obs_pin'] + COMMON_MODEL_TAGS,
@@ -126,14 +127,14 @@ PROPS['C02'] = dict(
     rule=POS_RULE + '; every legal move of every position is applied through both entry points (the in-place one with an unrelated pre-filled output board) and compared with Spec.apply',
 )
 PROPS['C03'] = dict(
-    coq_targets=[],
+    coq_targets=['Proofs/AbsBoard.vo', 'Proofs/NullMove.vo', 'Proofs/CanonAttack.vo', 'Proofs/CanonCheckers.vo', 'Proofs/CanonPinned.vo', 'Proofs/CanonNullMove.vo', 'Proofs/CanonScratch.vo'],
     scope='see theorem list',
     streams=lambda tier: [pos_stream(tier, 14, 900, 'succ')],
     tags=['obs_.*', 'oracle_checkers', 'oracle_pinned', 'reparse', 'succfs_.*', 'succ_ch', 'succ_pin', 'null_.*', 'nullfs_.*', 'impl_sane'] + COMMON_MODEL_TAGS,
     rule=POS_RULE,
 )
 PROPS['C04'] = dict(
-    coq_targets=[],
+    coq_targets=['Proofs/GenWF.vo', 'Proofs/GenWFBoard.vo', 'Proofs/StatusModel.vo'],
     scope='see theorem list',
     streams=lambda tier: [pos_stream(tier, 20, 1200, 'nosucc')],
     tags=['status_model', 'oracle_status', 'len0', 'len_vs_count', 'moves', 'obs_ch'] + COMMON_MODEL_TAGS,
@@ -164,7 +165,7 @@ PROPS['C17'] = dict(
     rule=POS_RULE + '; every position is paired with its colour-swapped vertical mirror image (and, without castling rights, its left-right mirror image) built through the neutral encoding; moves, status, checkers, pinned and all successors must be mirror images',
 )
 PROPS['C18'] = dict(
-    coq_targets=[],
+    coq_targets=['Proofs/AbsBoard.vo', 'Proofs/NullMove.vo', 'Proofs/CanonAttack.vo', 'Proofs/CanonCheckers.vo', 'Proofs/CanonPinned.vo', 'Proofs/CanonNullMove.vo', 'Proofs/CanonScratch.vo'],
     scope='see theorem list',
     streams=lambda tier: [pos_stream(tier, 20, 1200, 'nosucc')],
     tags=['null_.*', 'nullfs_.*'] + COMMON_MODEL_TAGS,
